@@ -1142,7 +1142,28 @@ theorem fields_reach_the_original_unchanged (enc : Fields.NodeMsg → Codec.Byte
 example : Fields.deliver (Fields.proxyMsg 5 3 (some 100) ⟨true, "Get", [1, 2], some [9]⟩) =
     (5, ⟨true, "Get", [1, 2], some [9]⟩) := by decide
 
+/-! ### E-SRC ties of the wave-2 models (regenerated from the sources on every check) -/
+
+/-- `after_authenticated` registers the pid monitor BEFORE it scans the pid registry, sends the one
+`Spawn`, then registers the pg monitors and scans the groups (`Model/SenderAdvert.lean`: `monitor`
+precedes `scan`; with the opposite order an actor starting in between would never be advertised). -/
+theorem extracted_after_authenticated_order :
+    Extracted.afterAuthenticatedOrder = ["pid_registry::monitor", "get_all_pids", "Msg::Spawn", "pg::monitor_scope",
+      "pg::monitor", "which_scopes_and_groups", "Msg::PgJoin", "Msg::Ready"] := by decide
+
+/-- the field-by-field hand-overs of `Fields.proxyMsg` (`handle_serialized`) and `Fields.deliver`
+(`handle_node`) are those of the source -/
+theorem extracted_payload_field_mapping :
+    Extracted.proxyCastFields = ["to", "what:args", "variant", "metadata"] ∧
+    Extracted.proxyCallFields = ["to", "tag", "what:args",
+      "timeout_ms:reply.get_timeout().map(|t|t.as_millis()asu64)", "variant", "metadata"] ∧
+    Extracted.deliverCastFields = ["variant:cast_args.variant", "args:cast_args.what", "metadata:cast_args.metadata"] ∧
+    Extracted.deliverCallFields = ["args:call_args.what", "reply:(tx,timeout).into()", "variant:call_args.variant",
+      "metadata:call_args.metadata"] := by decide
+
 #print axioms C20.composed_system_refines_its_components
+#print axioms C20.extracted_after_authenticated_order
+#print axioms C20.extracted_payload_field_mapping
 #print axioms C20.every_remotable_actor_is_advertised_by_the_sender
 #print axioms C20.fields_reach_the_original_unchanged
 #print axioms C20.composed_wire_hands_each_frame_to_the_original_named_by_to
